@@ -78,8 +78,14 @@ fn set<'a>(ont: &'a Ontology, ids: &[u32]) -> HpoSet<'a> {
 type V = Option<(String, String, String)>;
 
 /// All checks for one matrix under one id assignment. `a_ids`/`b_ids` ascending.
+thread_local! {
+    /// a second Ontology instance with the same content as the one in use (built from the same facts)
+    static TWIN: RefCell<Option<Rc<Ontology>>> = RefCell::new(None);
+}
+
 fn check_matrix(ont: &Ontology, m: &[Vec<f32>], r: usize, c: usize, a_ids: &[u32], b_ids: &[u32], what: &str) -> V {
     let v = |site: &str, sig: &str, det: String| Some((site.to_string(), sig.to_string(), format!("{what}: {det}")));
+    let twin: Option<Rc<Ontology>> = TWIN.with(|t| t.borrow().clone());
     let mut table = Table::new();
     for i in 0..r {
         for j in 0..c {
@@ -122,6 +128,19 @@ fn check_matrix(ont: &Ontology, m: &[Vec<f32>], r: usize, c: usize, a_ids: &[u32
         got_calls.sort_unstable();
         if got_calls != want_calls {
             return v("GroupSimilarity::calculate", "term similarity is not evaluated exactly once for every (a in A, b in B) in that argument order", format!("calls {calls:?}"));
+        }
+        // 1b. the second set living on another Ontology instance with the same content (a clone, the same file
+        // loaded twice): the combination is defined on the terms, not on the instance
+        if let Some(tw) = &twin {
+            let b2 = set(tw, b_ids);
+            let s1b = a.similarity(&b2, table.clone(), comb);
+            if s1b.to_bits() != s1.to_bits() {
+                return v("HpoSet::similarity", "result differs when the second set belongs to another Ontology instance with the same content", format!("{comb:?} matrix {m:?}: {s1b} vs {s1}"));
+            }
+            let s2b = GroupSimilarity::new(comb, table.clone()).calculate(&a, &b2);
+            if s2b.to_bits() != s1.to_bits() {
+                return v("GroupSimilarity::calculate", "result differs when the second set belongs to another Ontology instance with the same content", format!("{comb:?} matrix {m:?}: {s2b} vs {s1}"));
+            }
         }
         // 2. GroupSimilarity::calculate
         let s2 = GroupSimilarity::new(comb, table.clone()).calculate(&a, &b);
@@ -209,6 +228,7 @@ pub fn run(ctx: &mut Ctx) {
         f.edges.push((*i, 1));
     }
     let ont = drive::build(&f, Mode::Minimal).expect("flat ontology must build");
+    TWIN.with(|t| *t.borrow_mut() = Some(Rc::new(drive::build(&f, Mode::Minimal).expect("flat ontology must build"))));
 
     let alpha4: [f32; 4] = [0.0, 0.25, 1.0, -0.5];
     let alpha3: [f32; 3] = [0.0, 0.25, 1.0];
@@ -284,6 +304,7 @@ pub fn run(ctx: &mut Ctx) {
         f2.edges.push((*i, 1));
     }
     let ont2 = drive::build(&f2, Mode::Minimal).expect("flat ontology must build");
+    TWIN.with(|t| *t.borrow_mut() = Some(Rc::new(ont2.clone())));
     CURRENT_IDS.with(|c| *c.borrow_mut() = Rc::new(ids2.clone()));
     let b_choices: [[u32; 3]; 4] = [[5, 3_000_005, 70_000], [4464, 70_000, 3_000_005], [51_424, 1_100_000, 3_000_005], [5, 4464, 51_424]];
     for r in 1..=3usize {
@@ -361,6 +382,7 @@ pub fn run(ctx: &mut Ctx) {
                 return;
             }
         };
+        TWIN.with(|t| *t.borrow_mut() = drive::from_bytes(&bytes).ok().and_then(|r| r.ok()).map(Rc::new));
         let max3 = if thorough { 3 } else { 2 };
         for r in 0..=max3 {
             for c in 0..=max3 {
@@ -414,6 +436,85 @@ pub fn run(ctx: &mut Ctx) {
                     start = end;
                 }
             }
+        }
+    }
+    // ---- (last, because of the garbage it leaves in the allocator) sets around the 16-bit size border: the
+    // documented combinations for |A| up to 65 535 with |B| in {1, 2, 4} and the transposed shapes
+    {
+        TWIN.with(|t| *t.borrow_mut() = None);
+        ctx.space("sizes/u16-border", "flat ontology with 65 540 terms; (|A|, |B|) in {(65535,1), (65534,2), (65533,4), (65535,4), (300,300), (2,6000)} and, thorough tier, (1,65535), (4,65533) x 3 combiners; similarity = a dyadic function of the two ids (sums stay exact in f32); HpoSet::similarity, GroupSimilarity::calculate and SimilarityCombiner::calculate on the Matrix against the f64 reference");
+        // many columns are slow in the library (column maxima cost O(cols^2)): the transposed border shapes are thorough-only
+        let shapes: Vec<(usize, usize)> = if thorough { vec![(65_535, 1), (65_534, 2), (65_533, 4), (65_535, 4), (1, 65_535), (4, 65_533), (300, 300)] } else { vec![(65_535, 1), (65_534, 2), (65_533, 4), (65_535, 4), (2, 6000), (300, 300)] };
+        let mut big: Option<Ontology> = None;
+        struct ById;
+        impl Similarity for ById {
+            fn calculate(&self, a: &HpoTerm, b: &HpoTerm) -> f32 {
+                use hpo::annotations::AnnotationId;
+                by_id(a.id().as_u32(), b.id().as_u32())
+            }
+        }
+        fn by_id(a: u32, b: u32) -> f32 {
+            [0.25f32, 0.5, 1.0, 0.0][((a as u64 * 7 + b as u64 * 3) % 4) as usize]
+        }
+        for (r, c) in shapes {
+            if !ctx.take() {
+                continue;
+            }
+            ctx.state();
+            ctx.nontrivial();
+            if big.is_none() {
+                let mut fb = Facts::default();
+                fb.terms.push(Facts::term(1, "root"));
+                for i in 0..65_540u32 {
+                    fb.terms.push(Facts::term(10 + i, "t"));
+                    fb.edges.push((10 + i, 1));
+                }
+                big = drive::build(&fb, Mode::Minimal).ok();
+            }
+            let Some(ontb) = big.as_ref() else {
+                ctx.violation("Builder", "[builder] construction fails on valid facts", json!({"terms": 65_541}));
+                break;
+            };
+            // A = the first r ids, B = the last c ids of the 65 540 (disjoint unless r + c > 65 540)
+            let a_ids: Vec<u32> = (0..r as u32).map(|i| 10 + i).collect();
+            let b_ids: Vec<u32> = (0..c as u32).map(|i| 10 + 65_539 - i).rev().collect();
+            ctx.transitions((r * c) as u64 * 3);
+            let res = guard(|| -> V {
+                let a = set(ontb, &a_ids);
+                let b = set(ontb, &b_ids);
+                let row_max: Vec<f64> = a_ids.iter().map(|x| b_ids.iter().map(|y| by_id(*x, *y) as f64).fold(f64::NEG_INFINITY, f64::max)).collect();
+                let col_max: Vec<f64> = b_ids.iter().map(|y| a_ids.iter().map(|x| by_id(*x, *y) as f64).fold(f64::NEG_INFINITY, f64::max)).collect();
+                let (sr, sc): (f64, f64) = (row_max.iter().sum(), col_max.iter().sum());
+                let data: Vec<f32> = a_ids.iter().flat_map(|x| b_ids.iter().map(move |y| by_id(*x, *y))).collect();
+                for comb in COMBINERS {
+                    let want = match comb {
+                        StandardCombiner::FunSimAvg => (sr / r as f64 + sc / c as f64) / 2.0,
+                        StandardCombiner::FunSimMax => (sr / r as f64).max(sc / c as f64),
+                        StandardCombiner::Bma => (sr + sc) / (r + c) as f64,
+                    };
+                    let s1 = a.similarity(&b, ById, comb);
+                    if !(s1.is_finite() && (s1 as f64 - want).abs() <= 1e-5 * want.abs().max(1e-3)) {
+                        return Some(("HpoSet::similarity".into(), "result is not the documented combination of the pairwise matrix".into(), format!("{comb:?} |A| = {r}, |B| = {c}: observed {s1} expected {want}")));
+                    }
+                    let s2 = GroupSimilarity::new(comb, ById).calculate(&a, &b);
+                    if s2.to_bits() != s1.to_bits() {
+                        return Some(("GroupSimilarity::calculate".into(), "differs from HpoSet::similarity".into(), format!("{comb:?} |A| = {r}, |B| = {c}: {s2} vs {s1}")));
+                    }
+                    let s3 = comb.calculate(&Matrix::new(r, c, &data));
+                    if !(s3.is_finite() && (s3 as f64 - want).abs() <= 1e-5 * want.abs().max(1e-3)) {
+                        return Some(("SimilarityCombiner::calculate".into(), "result is not the documented combination of the matrix".into(), format!("{comb:?} {r} x {c}: observed {s3} expected {want}")));
+                    }
+                }
+                None
+            });
+            ctx.execs(9);
+            ctx.validateds(9);
+            match res {
+                Ok(None) => {}
+                Ok(Some((site, sig, det))) => ctx.violation(&site, &format!("[sets at the 16-bit size border] {sig}"), json!({"rows": r, "cols": c, "similarity": "[0.25, 0.5, 1.0, 0.0][(7a + 3b) % 4] of the two term ids", "A": format!("ids 10..{}", 10 + r), "B": format!("the last {c} of ids 10..65550"), "difference": det})),
+                Err(p) => ctx.violation("HpoSet::similarity", "[sets at the 16-bit size border] panics", json!({"rows": r, "cols": c, "observed": p})),
+            }
+            ctx.sample(|| json!({"rows": r, "cols": c}));
         }
     }
 }
